@@ -3,7 +3,7 @@
    The model is Html/Model.v (all of /repo/html/lex.go and ToHash over the generated table); [run c n l] is a
    caller that calls Next n times whatever it returns; [cfg_ok c] says the two template delimiters contain no
    NUL byte (c = no_tmpl: NewLexer; the six predefined pairs satisfy it, cfg_ok_predefined). *)
-From Verif Require Import Common.Base Common.Lx Gen.Tables Html.Model Html.ListLemmas Html.Safety Html.Step Html.Spec Html.RawText Html.Proofs Html.Template Html.Wf Html.WfDoc Html.EndTag Html.Script.
+From Verif Require Import Common.Base Common.Lx Gen.Tables Html.Model Html.ListLemmas Html.Safety Html.Step Html.Spec Html.RawText Html.Proofs Html.Template Html.Wf Html.WfDoc Html.EndTag Html.TemplateMore Html.Script Html.TemplateAll.
 
 (* C01 — no panic, no endless loop: n calls of Next succeed on every byte string, with or without template
    delimiters, whatever the caller does after an error. *)
@@ -192,22 +192,135 @@ Theorem html_template_elsewhere_fixed_witnesses :
 Proof. exact html_template_elsewhere_fixed. Qed.
 Print Assumptions html_template_elsewhere_fixed_witnesses.
 
-(* C09 — templates, attribute position (partial): a region that follows a tag name or an attribute (directly or after
-   whitespace) starts an Attribute token that contains the whole region, HasTemplate() = true. *)
+
+(* C09 — templates, attribute names (partial): a region [p,q) that follows a tag name or an attribute after
+   whitespace [cursor,a) and name bytes [a,p) at which no opening delimiter starts (name_plain: not whitespace,
+   '=', '>', "/>"; a = p: the region is the first thing of the attribute) lies inside ONE Attribute token that
+   starts at the cursor, HasTemplate() = true. *)
 Theorem html_template_atomic_attr_partial :
-  forall c d l p q, cfg_ok c -> tb_plain c -> html_inv d l -> intag l = true ->
-    lstart (lz l) = lpos (lz l) -> lpos (lz l) <= p ->
-    (forall i, lpos (lz l) <= i < p -> is_ws (getz d i) = true) -> is_region c d p q ->
+  forall c d l a p q, cfg_ok c -> tb_plain c -> html_inv d l -> intag l = true ->
+    lstart (lz l) = lpos (lz l) -> lpos (lz l) <= a <= p ->
+    (forall i, lpos (lz l) <= i < a -> is_ws (getz d i) = true) ->
+    (forall i, a <= i < p -> name_plain c d i) ->
+    is_region c d p q ->
     exists v l', next c l = Ok (AttributeT, Some v, l') /\ lhas l' = true /\ so v = lpos (lz l) /\ q <= so v + sn v.
-Proof. exact html_template_attr_proof. Qed.
+Proof. exact html_template_attr_name_proof. Qed.
 Print Assumptions html_template_atomic_attr_partial.
 
-(* C09 — templates, raw text (partial): a region at the start of the content of a raw-text element lies inside the Text
-   token, HasTemplate() = true. *)
+
+(* C09 — templates, attribute values (partial): after whitespace, a non-empty name [a,b) without delimiter start,
+   whitespace, '=' at e and whitespace, a region [p,q) that is the whole start of the value (p = v) or lies inside a
+   single- or double-quoted value after bytes [v+1,p) that are neither the quote nor a delimiter start, lies inside
+   the ONE Attribute token, HasTemplate() = true.
+   NOT proved for attributes (correspondence + oracle only): a second or later region of the same attribute.
+   Exact exception (known finding c09-template:attrval-unquoted-mid): a region that starts in the middle of an
+   UNQUOTED value is not recognised. *)
+Theorem html_template_atomic_attr_value_partial :
+  forall c d l a b e v p q, cfg_ok c -> tb_plain c -> html_inv d l -> intag l = true ->
+    lstart (lz l) = lpos (lz l) -> lpos (lz l) <= a -> a < b -> b <= e -> e < v -> v <= p ->
+    (forall i, lpos (lz l) <= i < a -> is_ws (getz d i) = true) ->
+    (forall i, a <= i < b -> name_plain c d i) ->
+    prefixb (tb c) (skipz b d) = false ->
+    (forall i, b <= i < e -> is_ws (getz d i) = true) -> getz d e = 61 ->
+    (forall i, e < i < v -> is_ws (getz d i) = true) ->
+    (v = p \/ (prefixb (tb c) (skipz v d) = false /\ (getz d v = 34 \/ getz d v = 39) /\
+               forall i, v < i < p -> value_plain c d (getz d v) i)) ->
+    is_region c d p q ->
+    exists tk l', next c l = Ok (AttributeT, Some tk, l') /\ lhas l' = true /\ so tk = lpos (lz l) /\ q <= so tk + sn tk.
+Proof. exact html_template_attr_value_proof. Qed.
+Print Assumptions html_template_atomic_attr_value_partial.
+
+
+(* C09 — templates, attributes (converse, full): an Attribute token reports HasTemplate() = true only if a delimited
+   region [p,q) lies inside it (between the cursor before the call and the cursor after it). *)
+Theorem html_template_attr_converse :
+  forall c d l v l', cfg_ok c -> tb c <> [] -> html_inv d l -> intag l = true ->
+    next c l = Ok (AttributeT, Some v, l') -> lhas l' = true ->
+    exists p q, lpos (lz l) <= p /\ q <= lpos (lz l') /\ is_region c d p q.
+Proof. exact html_template_attr_converse_proof. Qed.
+Print Assumptions html_template_attr_converse.
+
+
+(* C09 — templates, raw text (partial): for ANY delimiter pair (after 886e7b1 also those beginning with '<'), a region
+   [p,q) in the content of a raw-text element lies inside the Text token, HasTemplate() = true, whenever p is reached
+   from the start of the content (raw_reach) over: whole regions; bytes the scanner steps over one at a time (raw_plain:
+   no opening delimiter starts there, and a '<' is not followed by '/' nor, in a script, by "!--"); a "</" + letters
+   that is not the element's end tag (the scanner jumps over the letters: a delimiter that starts inside them is not seen).
+   Regions inside "<!--" sections of a script are now recognised by the code; they are covered by the converse and by
+   the oracle, not by raw_reach. *)
 Theorem html_template_atomic_rawtext_partial :
   forall c d l p q, cfg_ok c -> html_inv d l -> intag l = false ->
-    rawtag l <> 0 -> rawtag l <> html_hash_Plaintext -> (exists x t, tb c = x :: t /\ x <> 60) ->
-    p = lpos (lz l) -> is_region c d p q ->
-    exists v l', next c l = Ok (TextT, Some v, l') /\ lhas l' = true /\ so v = p /\ q <= so v + sn v.
-Proof. exact html_template_rawtext_proof. Qed.
+    rawtag l <> 0 -> rawtag l <> html_hash_Plaintext ->
+    raw_reach c (rawtag l) d (lpos (lz l)) p -> is_region c d p q ->
+    exists v l', next c l = Ok (TextT, Some v, l') /\ lhas l' = true /\ so v = lpos (lz l) /\ q <= so v + sn v.
+Proof. exact html_template_rawtext_reach_proof. Qed.
 Print Assumptions html_template_atomic_rawtext_partial.
+
+
+(* C09 — templates, raw text (converse, full): when the content of a raw-text element is not empty (the cursor is
+   neither at the end of input nor at an end tag of the element) and the call reports HasTemplate() = true, a
+   delimited region [p,q) lies inside the returned Text token (which ends at the new cursor). *)
+Theorem html_template_rawtext_converse :
+  forall c d l ty tk l', cfg_ok c -> tb c <> [] -> html_inv d l -> intag l = false -> rawtag l <> 0 ->
+    lpos (lz l) < len d -> ~ end_tag_at (rawtag l) (d ++ [0]) (lpos (lz l)) ->
+    next c l = Ok (ty, tk, l') -> lhas l' = true ->
+    exists p q, lpos (lz l) <= p /\ q <= lpos (lz l') /\ is_region c d p q.
+Proof. exact html_template_rawtext_converse_proof. Qed.
+Print Assumptions html_template_rawtext_converse.
+
+(* C09 — templates, EVERY context (full, the "only if" half of the property's last sentence): for every delimiter
+   pair, every input and every state reached, whatever token Next returns (text, template, tag parts, attributes, end
+   tags, comments, CDATA, doctype, bogus comments, raw text, script sections, svg / math / xml), if it reports
+   HasTemplate() = true then a delimited region [p,q) lies inside the bytes the call consumed.  (Proved by one
+   invariant over every loop whose first test is l.skipTemplate(): Model.with_tmpl / Safety.with_tmpl_inv.)
+   The "if" half (a region that starts where the lexer looks is never split and sets the flag) is proved per context:
+   html_template_atomic (text), html_template_atomic_attr_partial / _attr_value_partial (attributes),
+   html_template_atomic_rawtext_partial (raw text), html_template_atomic_comment (comments); for doctype, CDATA, bogus
+   comments, end tags and svg / math / xml it is covered by the witnesses and the Go oracle.  Positions at which the lexer does not look:
+   the letters it jumps over after '<' or "</" in
+   raw text, script "<!--" sections and svg / math content; the bytes of "<!--", "<![CDATA[", "<?" and of the
+   terminators "-->", "]]>", "?>" it moves over at once; whitespace, '=' and the closers '>' "/>" inside a tag;
+   the first two bytes of "</", "<!", "<?" and the first letter of a tag name. *)
+Theorem html_template_flag_sound :
+  forall c d l ty tk l', cfg_ok c -> tb c <> [] -> html_inv d l -> next c l = Ok (ty, tk, l') -> lhas l' = true ->
+    exists p q, lpos (lz l) <= p /\ q <= lpos (lz l') /\ is_region c d p q.
+Proof. intros c d l ty tk l' Hc Htb. exact (html_template_flag_sound_proof c d Hc Htb l ty tk l'). Qed.
+Print Assumptions html_template_flag_sound.
+
+(* C09 — templates, comments (the "if" half in a context that was a finding): "<!--" at the cursor (no delimiter starts
+   at the '<'), then bytes [a+4,p) at which neither a delimiter nor "-->" / "--!>" starts, then a region [p,q): the ONE
+   Comment token starts at the cursor, contains the whole region and reports HasTemplate() = true — also when the
+   region contains "-->".  (Proved with a generic rule for every scanning loop that tests l.skipTemplate() first,
+   TemplateAll.scan_reach_done; doctype, CDATA, bogus comments and end tags have the same loop shape.) *)
+Theorem html_template_atomic_comment :
+  forall c d l p q, cfg_ok c -> tb c <> [] -> html_inv d l -> intag l = false -> rawtag l = 0 ->
+    let a := lpos (lz l) in
+    prefixb (tb c) (skipz a d) = false -> prefixb [60; 33; 45; 45] (skipz a d) = true -> a + 4 <= p ->
+    (forall i, a + 4 <= i < p -> comment_plain c d i) -> is_region c d p q ->
+    exists v l', next c l = Ok (CommentT, Some v, l') /\ lhas l' = true /\ so v = a /\ q <= so v + sn v.
+Proof. exact html_template_comment_proof. Qed.
+Print Assumptions html_template_atomic_comment.
+
+(* C09 — templates, both halves in ONE statement (the property's last sentence: "a delimited region is never split
+   across tokens and HasTemplate() is true exactly for tokens that contain one"), for every delimiter pair, every input
+   and every state:
+   (1) if a region [p,q) starts at a position p at which the call looks for a delimiter (TemplateAll.looked: in text;
+       after whitespace and attribute-name bytes; at the start of an attribute value or inside a quoted value; in raw
+       text reached over plain bytes, regions and non-matching "</"+letters; in a comment, CDATA section, doctype, bogus
+       comment "<?…" / "<!…" or end tag, after bytes that are neither a delimiter start nor the construct's terminator),
+       then the call returns ONE token that starts at or before p, contains the whole region and has HasTemplate() = true;
+   (2) if the returned token has HasTemplate() = true, then a region lies inside the bytes the call consumed.
+   Positions at which the lexer does not look (so (1) does not apply): the letters it jumps over after '<' or "</" in
+   raw text, script "<!--" sections and svg / math content; the bytes of "<!--", "<![CDATA[", "<?" and of the terminators
+   "-->", "]]>", "?>"; the blank after "<!doctype"; whitespace, '=' and the closers inside a tag; the first two bytes of
+   "</", "<!", "<?" and the first letter of a tag name.  Not in [looked] although the lexer looks there: positions
+   inside svg / math / xml content, plaintext content and bogus comments "</"+non-letter (covered by (2), by
+   html_template_elsewhere_fixed_witnesses and by the Go oracle). *)
+Theorem html_template_exact :
+  forall c d l, cfg_ok c -> tb c <> [] -> html_inv d l ->
+    (forall p q, looked c d l p -> is_region c d p q ->
+       exists ty v l', next c l = Ok (ty, Some v, l') /\ lhas l' = true /\ so v <= p /\ q <= so v + sn v) /\
+    (forall ty tk l', next c l = Ok (ty, tk, l') -> lhas l' = true ->
+       exists p q, lpos (lz l) <= p /\ q <= lpos (lz l') /\ is_region c d p q).
+Proof. exact html_template_exact_proof. Qed.
+Print Assumptions html_template_exact.
